@@ -140,6 +140,7 @@ def _work(job):
 
         def fn(E):
             _LogGuard.records.clear()
+            loader.reset_state()
             try:
                 fn0(E, M, case)
             except WireError as exc:
